@@ -229,29 +229,47 @@ Qed.
 Lemma write_cells_length d cs idx vals : length (write_cells d cs idx vals) = length cs.
 Proof. apply write_pairs_length. Qed.
 
-Lemma build_col_name a k idx u k' : build_col a k idx u = inl k' -> cname k' = cname k.
+(* the two ways a column gets built: a plain write (same dtype), or - only while simulants are added - coerce the
+   supplied values to the column's dtype, write, cast the whole column to the update's dtype *)
+Lemma build_col_inv a k idx u k' : build_col a k idx u = inl k' ->
+  (udt u = cdt k /\ k' = mkcol (cname k) (cdt k) (write_cells (cdt k) (ccells k) idx (ucells u))) \/
+  (a = true /\ udt u <> cdt k /\ first_wins (cdt k) = false /\ first_wins (udt u) = false /\
+   exists vals cs, cast_cells (cdt k) (ucells u) = inl vals /\
+                   cast_cells (udt u) (write_cells (cdt k) (ccells k) idx vals) = inl cs /\
+                   k' = mkcol (cname k) (udt u) cs).
 Proof.
-  unfold build_col. destruct (dtype_eqb (udt u) (cdt k)); [intros H; inversion H; reflexivity|].
-  destruct (negb a); [discriminate|].
-  destruct (cdt k), (udt u); simpl; try discriminate;
-    repeat match goal with
-           | |- context [match ?x with _ => _ end] => destruct x; try discriminate
-           end; intros H; inversion H; reflexivity.
+  unfold build_col. destruct (dtype_eqb (udt u) (cdt k)) eqn:E.
+  { intros H; inversion H. left. split; [now apply dtype_eqb_eq | reflexivity]. }
+  destruct a; simpl; [|discriminate]. intros H. right. split; [reflexivity|].
+  split; [intros X; apply dtype_eqb_eq in X; congruence|].
+  assert (G : forall dc du, dc = cdt k -> du = udt u -> first_wins dc = false -> first_wins du = false ->
+              match cast_cells dc (ucells u) with
+              | inl vals => match cast_cells du (write_cells dc (ccells k) idx vals) with
+                            | inl cs => inl (mkcol (cname k) du cs) | inr o => inr o end
+              | inr o => inr o end = inl k' ->
+              first_wins (cdt k) = false /\ first_wins (udt u) = false /\
+              exists vals cs, cast_cells (cdt k) (ucells u) = inl vals /\
+                   cast_cells (udt u) (write_cells (cdt k) (ccells k) idx vals) = inl cs /\
+                   k' = mkcol (cname k) (udt u) cs).
+  { intros dc du -> -> F1 F2 HH. split; [assumption|]. split; [assumption|].
+    destruct (cast_cells (cdt k) (ucells u)) as [vals|] eqn:C1; [|discriminate].
+    destruct (cast_cells (udt u) (write_cells (cdt k) (ccells k) idx vals)) as [cs|] eqn:C2; [|discriminate].
+    inversion HH. exists vals, cs. split; [reflexivity|]. split; [exact C2|reflexivity]. }
+  destruct (cdt k) eqn:Dk, (udt u) eqn:Du; simpl in H;
+    repeat match type of H with
+           | (if ?c then _ else _) = _ => destruct c; try discriminate
+           end; try discriminate;
+    (eapply G; [reflexivity | reflexivity | reflexivity | reflexivity | exact H]).
 Qed.
+
+Lemma build_col_name a k idx u k' : build_col a k idx u = inl k' -> cname k' = cname k.
+Proof. intros B. apply build_col_inv in B. destruct B as [[_ ->]|[_ [_ [_ [_ [vals [cs [_ [_ ->]]]]]]]]]; reflexivity. Qed.
 
 Lemma build_col_length a k idx u k' : build_col a k idx u = inl k' -> length (ccells k') = length (ccells k).
 Proof.
-  unfold build_col. destruct (dtype_eqb (udt u) (cdt k)).
-  { intros H; inversion H; simpl. apply write_cells_length. }
-  destruct (negb a); [discriminate|].
-  assert (G : forall dc du, match cast_cells dc (ucells u) with
-                            | inl vals => match cast_cells du (write_cells dc (ccells k) idx vals) with
-                                          | inl cs => inl (mkcol (cname k) du cs) | inr o => inr o end
-                            | inr o => inr o end = inl k' -> length (ccells k') = length (ccells k)).
-  { intros dc du. destruct (cast_cells dc (ucells u)) as [vals|]; [|discriminate].
-    destruct (cast_cells du (write_cells dc (ccells k) idx vals)) as [cs|] eqn:E; [|discriminate].
-    intros H; inversion H; simpl. apply cast_cells_length in E. rewrite E. apply write_cells_length. }
-  destruct (cdt k), (udt u); simpl; try discriminate; try (apply G).
+  intros B. apply build_col_inv in B. destruct B as [[_ ->]|[_ [_ [_ [_ [vals [cs [_ [C ->]]]]]]]]]; simpl.
+  - apply write_cells_length.
+  - apply cast_cells_length in C. rewrite C. apply write_cells_length.
 Qed.
 
 (* steady state: only an update of the column's own dtype is accepted *)
@@ -286,7 +304,10 @@ Proof.
     - destruct (cast_cells du (write_cells dc (ccells k) idx vals)) as [cs|o] eqn:E2; [discriminate|].
       intros H. apply (cast_cells_not_pass du (write_cells dc (ccells k) idx vals)). rewrite E2. now inversion H.
     - intros H. apply (cast_cells_not_pass dc (ucells u)). rewrite E1. now inversion H. }
-  destruct (cdt k), (udt u); simpl; try discriminate; try (apply G).
+  destruct (cdt k), (udt u); simpl;
+    repeat match goal with
+           | |- (if ?c then _ else _) <> _ => destruct c
+           end; try discriminate; apply G.
 Qed.
 
 (* the pairs written are the update's (label, value) pairs *)
@@ -1084,17 +1105,7 @@ Definition lossless (k : column) (idx : list Z) (u : ucol) : Prop :=
 
 Lemma build_col_dtype a k idx u k' : build_col a k idx u = inl k' -> cdt k' = udt u.
 Proof.
-  unfold build_col. destruct (dtype_eqb (udt u) (cdt k)) eqn:E.
-  { intros H; inversion H; simpl. apply dtype_eqb_eq in E. congruence. }
-  destruct (negb a); [discriminate|].
-  assert (G : forall dc du, match cast_cells dc (ucells u) with
-                            | inl vals => match cast_cells du (write_cells dc (ccells k) idx vals) with
-                                          | inl cs => inl (mkcol (cname k) du cs) | inr o => inr o end
-                            | inr o => inr o end = inl k' -> cdt k' = du).
-  { intros dc du. destruct (cast_cells dc (ucells u)) as [vals|]; [|discriminate].
-    destruct (cast_cells du (write_cells dc (ccells k) idx vals)) as [cs|]; [|discriminate].
-    intros H; inversion H; reflexivity. }
-  destruct (cdt k), (udt u); simpl; try discriminate; try (apply G).
+  intros B. apply build_col_inv in B. destruct B as [[E ->]|[_ [_ [_ [_ [vals [cs [_ [_ ->]]]]]]]]]; simpl; congruence.
 Qed.
 
 Section AddingUpdate.
@@ -1142,8 +1153,8 @@ Section AddingUpdate.
       + apply dtype_eqb_eq in DE. rewrite DE. destruct (supplied (cdt k) l idx (ucells u0)); exact LV.
       + (* a cast: the column is not a string column (those refuse), nor is the update (unmodelled) *)
         assert (FW : first_wins (udt u0) = first_wins (cdt k)).
-        { unfold build_col in Bk. rewrite DE in Bk. simpl in Bk.
-          destruct (cdt k), (udt u0); simpl in *; try discriminate; reflexivity. }
+        { apply build_col_inv in Bk. destruct Bk as [[X _]|[_ [_ [F1 [F2 _]]]]]; [|congruence].
+          apply dtype_eqb_eq in X. congruence. }
         unfold supplied, pairs_for in *. rewrite FW.
         destruct (last_pair l (if first_wins (cdt k) then rev (combine idx (ucells u0)) else combine idx (ucells u0)) None); exact LV.
   Qed.
